@@ -50,6 +50,22 @@ theorem dft2_smul (f : Arr ℂ) (c : ℂ) (αr αc : ℝ) (M N : ℤ) (shr shc :
   refine sum_congr rfl fun y _ => sum_congr rfl fun x _ => ?_
   ring
 
+/-- **a shift is a phase ramp on the input** (reused by C04). Transforming with output shift `(shr, shc)` equals transforming,
+with zero shift, the input multiplied by `exp(2πi(αr·X·shr + αc·Y·shc))`, `X = x - ⌊m/2⌋ + off_r`, `Y = y - ⌊n/2⌋ + off_c`. -/
+theorem dft2_phase_ramp_eq_shift (f : Arr ℂ) (αr αc : ℝ) (M N : ℤ) (shr shc : ℝ) (offr offc : ℤ) (unitary : Bool) (u v : ℤ) :
+    (dft2 f αr αc M N shr shc offr offc unitary).get u v =
+      (dft2 { f with get := fun x y => f.get x y * Complex.exp ((2 * Real.pi * Complex.I) *
+          ((αr * ((x - f.s0 / 2 + offr : ℤ) : ℝ) * shr + αc * ((y - f.s1 / 2 + offc : ℤ) : ℝ) * shc : ℝ) : ℂ)) }
+        αr αc M N 0 0 offr offc unitary).get u v := by
+  rw [dft2_eq_defining_sum, dft2_eq_defining_sum]
+  congr 1
+  refine sum_congr rfl fun x _ => sum_congr rfl fun y _ => ?_
+  dsimp only
+  rw [mul_assoc (f.get _ _), ← Complex.exp_add]
+  congr 2
+  push_cast
+  ring
+
 open ComplexConjugate in
 /-- **inversion on a full period.** With `α = (1/m, 1/n)`, output shape = input shape, zero shift and offset and the
 *same* normalisation flag on both sides (either value), `idft2 (dft2 f) = f` at every sample. -/
